@@ -3,6 +3,8 @@ import OpacusLean.Lemmas.RnnCsl2
 import OpacusLean.Lemmas.RnnPack
 import OpacusLean.Lemmas.RnnNames
 import OpacusLean.Lemmas.RnnCellEq
+import OpacusLean.Generated.RnnCellEqs
+import Mathlib.Tactic.Ring
 set_option linter.unusedSimpArgs false
 /-! # C13 — DPLSTM / DPGRU / DPRNN are drop-in equivalents of the torch.nn recurrent layers
 
@@ -326,6 +328,60 @@ theorem gru_cell_equation (H : Nat) (w : CellW R) (x h : List R) (j : Nat) (hj :
   gru_cell_eq H w x h j hj xr xz xn hr hz hn hj' h1 h2 h3 h4 h5 h6 h7
 
 end Cells
+
+/-! ## The tie to the source: the cells' `forward`, re-translated on every run (`Generated/RnnCellEqs.lean`) -/
+section generatedCells
+open Opacus.Generated.RnnCells
+
+/-- closes `generated = closed form` in a commutative ring with opaque activations, up to operand order / association -/
+macro "cell_close" : tactic =>
+  `(tactic| first | rfl | (ring_nf; done) | (simp only [Prod.mk.injEq]; constructor <;> ring_nf))
+
+/-- the per-coordinate equations written in `DPRNNCell.forward`, `DPGRUCell.forward`, `DPLSTMCell.forward` – chunk `k` of
+`torch.split(…, hidden_size, 1)` is gate `k` – are the closed forms of `rnn_cell_equation`, `gru_cell_equation`,
+`lstm_cell_equations`, i.e. `torch.nn`'s gate order `(r, z, n)` / `(i, f, g, o)` -/
+theorem generated_cells_eq_model {R : Type} [CommRing R] [Act R] (a0 a1 a2 a3 b0 b1 b2 b3 hp cp : R) :
+    rnnTanh a0 b0 = Act.tanh (a0 + b0) ∧ rnnRelu a0 b0 = Act.relu (a0 + b0) ∧
+    gru a0 a1 a2 b0 b1 b2 hp
+      = (1 - Act.sigmoid (a1 + b1)) * Act.tanh (a2 + Act.sigmoid (a0 + b0) * b2) + Act.sigmoid (a1 + b1) * hp ∧
+    lstm a0 a1 a2 a3 b0 b1 b2 b3 cp
+      = (Act.sigmoid (a3 + b3) * Act.tanh (Act.sigmoid (a1 + b1) * cp + Act.sigmoid (a0 + b0) * Act.tanh (a2 + b2)),
+         Act.sigmoid (a1 + b1) * cp + Act.sigmoid (a0 + b0) * Act.tanh (a2 + b2)) := by
+  refine ⟨?_, ?_, ?_, ?_⟩
+  · unfold rnnTanh; cell_close
+  · unfold rnnRelu; cell_close
+  · unfold gru; cell_close
+  · unfold lstm; cell_close
+
+/-- the model's LSTM cell, coordinate by coordinate, is the generated equation (gate `k` of unit `j` = row `k·H + j` of
+`ih(x) + hh(h)`) -/
+theorem generated_lstm_is_model_cell {R : Type} [CommRing R] [Act R] (H : Nat) (w : CellW R) (x h c : List R) (j : Nat)
+    (hj : j < H) (a0 a1 a2 a3 b0 b1 b2 b3 cj : R)
+    (hi : (gatesOf w x h)[j]? = some (a0 + b0)) (hf : (gatesOf w x h)[H + j]? = some (a1 + b1))
+    (hg : (gatesOf w x h)[2 * H + j]? = some (a2 + b2)) (ho : (gatesOf w x h)[3 * H + j]? = some (a3 + b3))
+    (hc : c[j]? = some cj) :
+    (lstmCell H w x (h, c)).1[j]? = some (lstm a0 a1 a2 a3 b0 b1 b2 b3 cj).1 ∧
+    (lstmCell H w x (h, c)).2[j]? = some (lstm a0 a1 a2 a3 b0 b1 b2 b3 cj).2 := by
+  obtain ⟨h2, h1⟩ := lstm_cell_equations H w x h c j hj _ _ _ _ cj hi hf hg ho hc
+  rw [(generated_cells_eq_model a0 a1 a2 a3 b0 b1 b2 b3 0 cj).2.2.2]
+  exact ⟨h1, h2⟩
+
+/-- … and the GRU and Elman cells -/
+theorem generated_gru_rnn_is_model_cell {R : Type} [CommRing R] [Act R] (H : Nat) (w : CellW R) (x h : List R) (j : Nat)
+    (hj : j < H) (a0 a1 a2 b0 b1 b2 hj' : R)
+    (h1 : (linear w.wih w.bih x)[j]? = some a0) (h2 : (linear w.wih w.bih x)[H + j]? = some a1)
+    (h3 : (linear w.wih w.bih x)[2 * H + j]? = some a2)
+    (h4 : (linear w.whh w.bhh h)[j]? = some b0) (h5 : (linear w.whh w.bhh h)[H + j]? = some b1)
+    (h6 : (linear w.whh w.bhh h)[2 * H + j]? = some b2) (h7 : h[j]? = some hj') :
+    (gruCell H w x h)[j]? = some (gru a0 a1 a2 b0 b1 b2 hj') ∧
+    (rnnCell false w x h)[j]? = some (rnnTanh a0 b0) ∧ (rnnCell true w x h)[j]? = some (rnnRelu a0 b0) := by
+  obtain ⟨e1, e2, e3, _⟩ := generated_cells_eq_model a0 a1 a2 0 b0 b1 b2 0 hj' 0
+  rw [e1, e2, e3]
+  exact ⟨gru_cell_equation H w x h j hj a0 a1 a2 b0 b1 b2 hj' h1 h2 h3 h4 h5 h6 h7,
+    by simpa using rnn_cell_equation false w x h j a0 b0 h1 h4,
+    by simpa using rnn_cell_equation true w x h j a0 b0 h1 h4⟩
+
+end generatedCells
 
 /-! ## non-vacuity: the hypotheses are satisfiable and the conclusions are not trivial -/
 
